@@ -53,8 +53,14 @@ func CheckProperty(t *testing.T, prop string, b kit.Budget, gen func(*rapid.T) *
 		if v.Nontrivial && kit.WantSample() {
 			kit.Sample(map[string]any{"world": w, "calls_per_cycle": Traces(v.History)})
 		}
-		if len(v.Findings) > 0 {
-			f := v.Findings[0]
+		var fresh []Finding
+		for _, f := range v.Findings {
+			if !kit.Known(prop, f.Sig) {
+				fresh = append(fresh, f)
+			}
+		}
+		if len(fresh) > 0 {
+			f := fresh[0]
 			msg := fmt.Sprintf("cycle %d: %s", f.Cycle, f.Msg)
 			path := kit.Violation(prop, f.Sig, msg, w, Traces(v.History))
 			t.Fatalf("VIOLATION %s: %s (%s)", f.Sig, msg, path)
@@ -74,9 +80,17 @@ func ReplayProperty(t *testing.T, judge Judge, reps int) {
 			v := judge(&w)
 			res.Runs++
 			if len(v.Findings) > 0 {
+				// prefer reporting a finding that is not a listed known one
+				f := v.Findings[0]
+				for _, g := range v.Findings {
+					if !kit.Known(rf.Property, g.Sig) {
+						f = g
+						break
+					}
+				}
 				res.Bad++
-				res.Violated, res.Signature = true, v.Findings[0].Sig
-				res.Message = fmt.Sprintf("cycle %d: %s", v.Findings[0].Cycle, v.Findings[0].Msg)
+				res.Violated, res.Signature = true, f.Sig
+				res.Message = fmt.Sprintf("cycle %d: %s", f.Cycle, f.Msg)
 			}
 		}
 		return res
